@@ -1,8 +1,51 @@
 import DarkluaModel.Util.Sexp
-/-! Line-protocol handlers for property C04 (stub: nothing modelled yet). -/
-namespace DarkluaModel.C04
+import DarkluaModel.C03.Model
+import DarkluaModel.C03.Driver
+/-!
+Line-protocol handlers for property C04 (trace items as in `C03/Driver.lean`).
 
-def handle (op : String) (_args : List String) : String :=
-  "unknown-op " ++ op
+  `c04.lines <item>*` → `ok <budgetOk> <monotone> <checked> <displaced> <recorded>:<actual>`
+      budgetOk / monotone: the hypotheses of `budget_lands` / `monotone_ok` on the op sequence;
+      checked: number of non-empty line-bearing contents; displaced: how many of them do not
+      start on their recorded line in the model's output; the first such pair (`-` if none)
+  `c04.shift <k> <comment-hex> <item>*` → `ok <budgetOk of startComment ++ shiftOps k ops>`
+-/
+namespace DarkluaModel.C04
+open DarkluaModel.C03
+
+/-- (checked, displaced, first displaced (recorded, actual)) over a run of the writer. -/
+def landings (st : State) (acc : Nat × Nat × Option (Nat × Nat)) : List Op → Nat × Nat × Option (Nat × Nat)
+  | [] => acc
+  | op :: rest =>
+    let acc' :=
+      match op with
+      | .token t (some n) sc =>
+        if t.isEmpty then acc
+        else
+          let actual := countNewLines (prepToken st t (some n) sc).rout + 1
+          if actual == n then (acc.1 + 1, acc.2.1, acc.2.2)
+          else (acc.1 + 1, acc.2.1 + 1, acc.2.2 <|> some (n, actual))
+      | _ => acc
+    landings (step st op) acc' rest
+
+def handle (op : String) (args : List String) : String :=
+  match op, args with
+  | "lines", items =>
+    match decode items with
+    | none => "bad-args"
+    | some is =>
+      let l := flatten is
+      let (checked, displaced, first) := landings init (0, 0, none) l
+      let f := match first with
+        | some (n, a) => s!"{n}:{a}"
+        | none => "-"
+      s!"ok {b01 (budgetOk 1 false l)} {b01 (monotone 1 false l)} {checked} {displaced} {f}"
+  | "shift", k :: c :: items =>
+    match k.toNat?, hexToBytes? c, decode items with
+    | some k, some c, some is =>
+      let l := flatten is
+      s!"ok {b01 (budgetOk 1 false l)} {b01 (budgetOk 1 false (startComment c ++ shiftOps k l))} {commentShift c}"
+    | _, _, _ => "bad-args"
+  | _, _ => "unknown-op " ++ op
 
 end DarkluaModel.C04
